@@ -133,7 +133,7 @@ pub fn check_font(data: &[u8]) -> (Problems, usize) {
             } }
         }
     } else {
-        for t in [b"gvar", b"HVAR", b"MVAR", b"avar", b"STAT"] { if font.has(t) { out.push(("variation-table-in-static-font".into(), String::from_utf8_lossy(t).to_string())); } }
+        for t in [b"gvar", b"HVAR", b"MVAR", b"avar"] { if font.has(t) { out.push(("variation-table-in-static-font".into(), String::from_utf8_lossy(t).to_string())); } }
     }
     // cmap targets
     match font.cmap() { Ok(m) => for (cp, g) in m { if g as usize >= n { out.push(("cmap-gid-out-of-range".into(), format!("U+{cp:04X} -> {g}"))); } }, Err(e) => out.push(("cmap-inconsistent".into(), e)) }
